@@ -71,6 +71,7 @@ pub fn profile(family: &str) -> Profile {
         "backpressure" => Profile {
             entries: &[Entry::Builder],
             name: "backpressure",
+            spurious_pm: 200,
             unbounded_w: 10,
             max_bound: 4,
             handler_sleep_pm: 600,
@@ -83,6 +84,7 @@ pub fn profile(family: &str) -> Profile {
         "restart-bp" => Profile {
             entries: &[Entry::Builder],
             name: "restart-bp",
+            spurious_pm: 120,
             unbounded_w: 10,
             max_bound: 3,
             handler_sleep_pm: 600,
@@ -579,7 +581,12 @@ pub fn gen_case(family: &str, r: &mut Rng) -> Case {
     let mut sp = spec(r, &p);
     if matches!(p.name, "backpressure" | "mailbox" | "handles" | "restart-bp") && r.chance(300) {
         // the actor hands out a weak handle taken from its own context
-        sp.started.push(Act::Share { x: 1 + r.below(p.nslots - 1) as usize, caller: r.chance(300) });
+        let x = 1 + r.below(p.nslots - 1) as usize;
+        sp.started.push(match r.below(10) {
+            0..=2 => Act::Share { x, caller: true },
+            3..=4 => Act::ShareAddr { x },
+            _ => Act::Share { x, caller: false },
+        });
     }
     let eff = crate::spawn::effective(&sp);
     let mut clients: Vec<Vec<Cop>> = vec![];
@@ -658,6 +665,11 @@ pub fn gen_case(family: &str, r: &mut Rng) -> Case {
         }
         fix_sleeps(&mut prog, eff.timeout);
         clients.push(prog);
+    }
+    if p.name == "backpressure" && r.chance(450) {
+        // a stop request while the mailbox is under load: senders are parked behind it
+        let x = r.below(p.nslots) as usize;
+        clients.push(vec![Cop::Sleep(1 + r.below(40)), Cop::Stop { h: x }, Cop::Stop { h: 0 }]);
     }
     if p.name == "restart-bp" && r.chance(350) {
         // every handle goes away early, while a restart request and messages behind it are still queued
